@@ -932,7 +932,7 @@ func (m *Matcher) checkLabels(st state, w, r Node, wl, rl string, wfr, rfr *fram
 	if rp, ok := r.(*Prim); ok && isFieldLabel(rl) && !discard {
 		if wp, ok := w.(*Prim); ok {
 			switch {
-			case isFieldLabel(wl) && wl == rl:
+			case isFieldLabel(wl) && (wl == rl || specRename(wl, rl, rfr)):
 				m.fieldAt[rp] = rl
 			case !isFieldLabel(wl) && isDefaultConst(wp) && !m.impliedZero(st.e, rl):
 				if _, had := m.constAt[rp]; !had {
@@ -964,7 +964,7 @@ func (m *Matcher) checkLabels(st state, w, r Node, wl, rl string, wfr, rfr *fram
 		}
 		if isFieldLabel(rl) {
 			m.Res.Labels++
-			if wl != rl {
+			if wl != rl && !specRename(wl, rl, rfr) {
 				m.fail("label", w, r, wfr, rfr, "writer emits field %s here but the reader stores this position into %s", wl, rl)
 			}
 		}
@@ -3390,4 +3390,27 @@ func singleValuePair(w, r *Call) bool {
 	}
 	_ = wn
 	return rn == 0
+}
+
+// specRename: the reader is a hand-written reference decoder (zzSpec…, written against the field
+// names of the tree it was reviewed on) and the two labels differ only in the capital of their last
+// component (Records / records): the same field after it was unexported, or moved into an embedded
+// record with unexported names. Only the reference comparison is tolerant; real writer/reader pairs
+// must name the same field.
+func specRename(wl, rl string, rfr *frame) bool {
+	if rfr == nil {
+		return false
+	}
+	root := rfr
+	for root.parent != nil {
+		root = root.parent
+	}
+	if root.ctx == nil || root.ctx.FI == nil || !strings.HasPrefix(root.ctx.FI.Obj.Name(), "zzSpec") {
+		return false
+	}
+	i, j := strings.LastIndex(wl, "."), strings.LastIndex(rl, ".")
+	if i < 0 || j < 0 || i+1 >= len(wl) || j+1 >= len(rl) {
+		return false
+	}
+	return strings.EqualFold(wl[i+1:i+2], rl[j+1:j+2]) && wl[i+2:] == rl[j+2:]
 }
